@@ -361,6 +361,17 @@ func (r *runner) modelCase(g *geom, idx *s2.ShapeIndex, t *tgt, q qopts, rs []s2
 	for _, s := range s2.VerifC08ContainingShapes(tm, idx) {
 		cont = append(cont, vkit.Z(int64(s)))
 	}
+	// an index target visits its shapes in Go map order: which of the containing polygons make it into
+	// a truncated interior result set is then not reproducible
+	if t.kind == "index" && len(t.tg.shapes) > 1 && q.interiors && q.k > 0 {
+		distinct := map[string]bool{}
+		for _, s := range cont {
+			distinct[s] = true
+		}
+		if len(distinct) > q.k {
+			return ""
+		}
+	}
 	cb := s2.VerifC08CapBound(tm)
 	leaf := uint64(0)
 	if !cb.IsEmpty() {
